@@ -432,7 +432,9 @@ impl UintVecMin0 {
 
     /// Resize with specific bit width
     pub fn resize_with_uintbits(&mut self, num: usize, bits: usize) {
-        assert!(bits <= 64, "Bits must be <= 64");
+        // get()/get2() only support the fast path (<= 58 bits): refuse wider values here, at
+        // construction, instead of building a vector whose every read panics
+        assert!(bits <= 58, "UintVecMin0 supports at most 58 bits per value, got {}", bits);
 
         self.bits = bits;
         self.mask = if bits == 0 { 0 } else { (1usize << bits) - 1 };
